@@ -605,6 +605,7 @@ impl Default for Locomotive {
 impl SerdeAPI for Locomotive {
     fn init(&mut self) -> anyhow::Result<()> {
         let _mass = self.mass().with_context(|| format_dbg!())?;
+        self.check_force_max().with_context(|| format_dbg!())?;
         self.loco_type.init()?;
         Ok(())
     }
